@@ -506,17 +506,18 @@ Qed.
 
 (* ---------- non-vacuity / sanity by evaluation ---------- *)
 Example f62_inv_example :
-  exists r, f62_fn_inv 66 (f62_new 3) = Some r /\ (f62_as_int r * 3) mod M62 = 1.
-Proof. eexists. split; vm_compute; reflexivity. Qed.
-Example f62_inv_example_lazy :   (* a word >= M and an even word *)
-  exists r r', f62_fn_inv 66 (f62_new 3 + M62) = Some r /\ (f62_as_int r * 3) mod M62 = 1 /\
-               f62_fn_inv 66 2 = Some r' /\ (val62 r' * val62 2) mod M62 = 1.
-Proof. eexists. eexists. repeat split; vm_compute; reflexivity. Qed.
+  f62_fn_inv 66 (f62_new 3) = Some 3074498027548486314 /\
+  (f62_as_int 3074498027548486314 * 3) mod M62 = 1.
+Proof. split; vm_compute; reflexivity. Qed.
+Example f62_inv_example_lazy :   (* a word >= M, and an even word *)
+  f62_fn_inv 66 (f62_new 3 + M62) = Some 3074498027548486314 /\
+  f62_fn_inv 66 2 = Some 315222280642146850 /\
+  (val62 315222280642146850 * val62 2) mod M62 = 1.
+Proof. split; [|split]; vm_compute; reflexivity. Qed.
 Example rel_prime_hyp_nonempty : rel_prime 2 M62.
 Proof.
   apply Zis_gcd_intro; [apply Z.divide_1_l|apply Z.divide_1_l|].
-  intros t H2 HM. destruct H2 as [q Hq].
-  (* t divides 2 and the odd M62, hence t | M62 - 2*((M62-1)/2) = 1 *)
-  replace 1 with (M62 - ((M62 - 1) / 2) * 2) by reflexivity.
-  apply Z.divide_sub_r; [exact HM|]. apply Z.divide_mul_r. exists q. exact Hq.
+  intros t H2 HM.
+  replace 1 with (M62 - 2305812497766023168 * 2) by reflexivity.
+  apply Z.divide_sub_r; [exact HM|]. apply Z.divide_mul_r. exact H2.
 Qed.
